@@ -73,6 +73,10 @@ debug = 0
 incremental = false
 overflow-checks = true
 
+# 16 binaries are built in parallel already; few codegen units keep the thread count down
+[profile.dev.package.rsbind_{tag}]
+codegen-units = 2
+
 # the derive macros (serde_derive, candid_derive) run once per emitted item: optimise them
 [profile.dev.build-override]
 opt-level = 2
